@@ -324,7 +324,7 @@ def r_map(mapping):
         t = mapping.get(R.plain_of(v[2]))
         if t is None:
             return None
-        return [("str", False, R.parse_sigma_string(x)) for x in ([t] if isinstance(t, str) else t)]
+        return [("str", v[1], R.parse_sigma_string(x)) for x in ([t] if isinstance(t, str) else t)]
     return fn
 
 
